@@ -148,3 +148,87 @@ theorem expVal_spec (js : Nat → JFields) : ∀ (fuel : Nat) (c : ECtx) (v : JV
       · intro _; exact hidx
 
 end GojaModel.C13
+
+namespace GojaModel.C13
+
+/-! ### the recursion fuel suffices: with more fuel than objects the export never gives up -/
+
+/-- every reference stored in an object with id < N points to an object with id < N -/
+def Closed (js : Nat → JFields) (N : Nat) : Prop :=
+  ∀ id, id < N → ∀ kv ∈ js id, ∀ r, kv.2 = .ref r → r < N
+
+def ValIn (N : Nat) : JVal → Prop
+  | .prim _ => True
+  | .ref r => r < N
+
+theorem nodup_bounded_length {l : List Nat} {N : Nat} (hn : l.Nodup) (hb : ∀ x ∈ l, x < N) : l.length ≤ N := by
+  have : l ⊆ List.range N := fun x hx => List.mem_range.mpr (hb x hx)
+  simpa using hn.length_le_of_subset this
+
+def FuelSpec (N : Nat) (f : Nat) (c : ECtx) (v : JVal) (r : ECtx × GVal) : Prop :=
+  c.cache.Nodup → (∀ x ∈ c.cache, x < N) → ValIn N v → N + 1 ≤ f + c.cache.length →
+    r.1.ok = c.ok ∧ (∀ x ∈ r.1.cache, x < N)
+
+theorem expFields_fuel {js : Nat → JFields} {N f : Nat} {ev : ECtx → JVal → ECtx × GVal}
+    (hspec : ∀ c v, ValSpec js c v (ev c v)) (hfuel : ∀ c v, FuelSpec N f c v (ev c v)) :
+    ∀ (fs : JFields) (c : ECtx), c.cache.Nodup → (∀ x ∈ c.cache, x < N) → (∀ kv ∈ fs, ValIn N kv.2) →
+      N + 1 ≤ f + c.cache.length →
+      (expFields ev c fs).1.ok = c.ok ∧ (∀ x ∈ (expFields ev c fs).1.cache, x < N)
+  | [], c, _, hb, _, _ => ⟨rfl, hb⟩
+  | (k, v) :: rest, c, hn, hb, hin, hf => by
+    simp only [expFields]
+    have h1 := hfuel c v hn hb (hin (k, v) (by simp)) hf
+    have e1 := (hspec c v).1
+    obtain ⟨suf, hsuf⟩ := e1.cachePre
+    have hlen : c.cache.length ≤ (ev c v).1.cache.length := by rw [hsuf]; simp
+    have h2 := expFields_fuel hspec hfuel rest (ev c v).1 (e1.nodup hn) h1.2
+      (fun kv hkv => hin kv (by simp [hkv])) (by omega)
+    exact ⟨h2.1.trans h1.1, h2.2⟩
+
+theorem expVal_fuel (js : Nat → JFields) (N : Nat) (hcl : Closed js N) :
+    ∀ (fuel : Nat) (c : ECtx) (v : JVal), FuelSpec N fuel c v (expVal js fuel c v)
+  | fuel, c, .prim p => by
+    intro _ hb _ _
+    cases fuel <;> exact ⟨rfl, hb⟩
+  | 0, c, .ref id => by
+    intro hn hb _ hf
+    have := nodup_bounded_length hn hb
+    omega
+  | fuel + 1, c, .ref id => by
+    intro hn hb hin hf
+    simp only [expVal]
+    cases hfa : findAddr id c.cache with
+    | some a => exact ⟨rfl, hb⟩
+    | none =>
+      simp only
+      have hid : id < N := hin
+      have hnd1 : (c.cache ++ [id]).Nodup := by
+        rw [List.nodup_append]
+        refine ⟨hn, by simp, ?_⟩
+        intro x hx y hy
+        simp at hy; subst hy
+        intro e; subst e
+        exact findAddr_none hfa hx
+      have hb1 : ∀ x ∈ c.cache ++ [id], x < N := by
+        intro x hx
+        rcases List.mem_append.mp hx with hx | hx
+        · exact hb x hx
+        · simp at hx; subst hx; exact hid
+      have hfs := expFields_fuel (js := js) (N := N) (f := fuel) (expVal_spec js fuel) (expVal_fuel js N hcl fuel)
+        (js id) { c with cache := c.cache ++ [id] } hnd1 hb1
+        (by
+          intro kv hkv
+          cases hv : kv.2 with
+          | prim p => trivial
+          | ref r => exact hcl id hid kv hkv r hv)
+        (by simp only [List.length_append, List.length_cons, List.length_nil]; omega)
+      exact ⟨hfs.1, hfs.2⟩
+
+/-- With at least `N + 1` units of fuel an export over a heap of `N` objects never runs out. -/
+theorem exportRoot_ok (js : Nat → JFields) (N root fuel : Nat) (hcl : Closed js N) (hr : root < N)
+    (hf : N + 1 ≤ fuel) : (exportRoot js fuel root).1.ok = true := by
+  have := expVal_fuel js N hcl fuel ECtx.empty (.ref root) (by simp [ECtx.empty]) (by simp [ECtx.empty]) hr
+    (by simp [ECtx.empty]; omega)
+  exact this.1
+
+end GojaModel.C13
